@@ -77,6 +77,21 @@ def or_spec(X, Y, R):
     return True
 
 
+def chain_spec(kind, Xs, R):
+    """x1 OP x2 OP ... (left-nested, as the grammar builds it) - what the binary table implies for the whole chain whatever
+    the intermediate outcomes are: an absorbing operand anywhere (false for &&, true for ||) decides; all booleans give the
+    conjunction / disjunction; without an absorbing operand, booleans and errors only with at least one error give an error."""
+    absorbing = (lambda b: z3.Not(b)) if kind == "and" else (lambda b: b)
+    bools = [x for x in Xs if isinstance(x, tuple)]
+    any_abs = z3.Or(*[absorbing(b[1]) for b in bools]) if bools else z3.BoolVal(False)
+    if len(bools) == len(Xs):
+        return r_is_bool(R, (z3.And if kind == "and" else z3.Or)(*[b[1] for b in bools]))
+    rest = True
+    if all(isinstance(x, tuple) or x == "E" for x in Xs):
+        rest = r_is_err(R)
+    return ite(any_abs, r_is_bool(R, kind == "or"), rest)
+
+
 def not_spec(X, R):
     if isinstance(X, tuple):
         return r_is_bool(R, z3.Not(X[1]))
